@@ -28,7 +28,7 @@ CHECKS = {
          "Held on the executions explored: every view x N grid x degenerate input classes, chains, long runs (1e4 quick / 1e6 thorough updates). 'For ever' is restated as no relapse and no non-finite value within those run lengths; no finite run decides the unbounded claim.",
          "a node is only judged while its own inputs stayed finite, in domain and below 2^40; a panic of the code under test ends the trial (C15 reports it)"),
  "C09": ("bounded-input stress runs against a length-independent bound derived from the reference model (finite, inside the bound, no growth from the first 4L to 16L updates) and a two-instance fading-memory relation (different prefixes, common tail, agreement to 1e-6 from the reference settle length on)",
-         "Held on the executions explored: nine recursive views, all N 1..9 and a grid to 64 (+100, 1000), inputs incl. square waves through the resonance region; runs of L/4L/16L with L = 1e4 (quick) / 2e5 (thorough). Bounded restatement of an unbounded-time claim: no finite run decides 'however long'.",
+         "Held on the executions explored: nine recursive views, all N 1..9 and a grid to 64 (+100, 1000), inputs incl. square waves through the resonance region, for Ema also of magnitude 0.75 f64::MAX; runs of L/4L/16L with L = 1e4 (quick) / 2e5 (thorough). Bounded restatement of an unbounded-time claim: no finite run decides 'however long'.",
          "bounds are sound but loose (forcing x l1 bound of the recursion): they catch instability and growth, not gain errors (C11 owns those)"),
  "C10": ("relational monitor over three executions x, y, a x + b y (exact scalar: equality; f64: envelope), incl. streams constructed so that the combined input/state is exactly 0; constant-input clauses with the reference settle length",
          "Held on the executions explored: eight linear views x parameter grids (Ema weights up to 1.25) x N grid, a, b incl. 0, negatives and 2^+-60, x streams that hover and jump by 1e8 times their recent range.",
@@ -40,7 +40,7 @@ CHECKS = {
          "Held on the executions explored except for one recorded known finding (Vst at a level 1e9 times the spread, through WelfordOnline's m2 residue): all views of the statement's three lists x N grid x 8 input classes with ties.",
          "flat windows exempt only for Vst (returns the value) and Rsi under negation (returns 100)"),
  "C13": ("reference-model monitor: exact integer-scaled running sums (i128), running peak and largest relative decline, ln ratio; exact scalar (equality) and f64 at every step of streams of L, 4L, 16L values with one tolerance",
-         "Held on the executions explored: three views x eight stream shapes (new peaks after deeper troughs, equal peaks, monotone, flats, three decades, a high level with a small spread), 16L ~ 3e5 (quick) / 1e7 (thorough), two streams beyond 2^24 values; f64 tolerance 1e-11 of scale (noise observed: 6e-14).",
+         "Held on the executions explored: three views x eight stream shapes (new peaks after deeper troughs, equal peaks, monotone, flats, three decades, a high level with a small spread), a third of them with the view constructed over an inner view that already has a history, 16L ~ 3e5 (quick) / 1e7 (thorough), two streams beyond 2^24 values; f64 tolerance 1e-11 of scale (noise observed: 6e-14).",
          "positive inputs k/64 in [1,1000]"),
  "C14": ("pointwise oracle over Script children (outputs dictated), bit-exact comparison after every update; two-history statelessness relation",
          "Held on the executions explored (all nine combinators x f64/f32/exact rational x seeded script pairs incl. zeros, -0, clip ties, denormals, None prefixes).",
@@ -49,7 +49,7 @@ CHECKS = {
          "Held on the executions explored: every view x full secondary-parameter grid x N (1..64 in thorough) x 18 input classes x stream lengths shorter than / about / far beyond the window, two-level chains with in-domain inner outputs, f64 and f32.",
          "constructor panics count as 'constructor rejects N'; inputs bounded by 2^20; Ema weights up to 1.5; one known finding (Alma at f32 with an underflowing first kernel weight)"),
  "C16": ("f64 (and f32) executions compared with exact arithmetic: exact batch oracle over the recent inputs for windowed views, the C11 reference model restarted on the last S(N) inputs for recursive ones; drift clause on long three-decade streams at 200+ checkpoints (every step around the 65 536th / 131 072nd value; every step at f32 for windows up to 16), flat clause after volatile prefixes",
-         "Held on the executions explored except for the recorded known findings (Vst / Vsct and - at f32 - WelfordOnline through the running m2's residue, PFE over a Sma, LaguerreRSI's conditioning at f32): 25 views + PFE / EFT over three smoothers x N grid (and 300 / 400 / 520 on 1e6 values), three-decade streams of 1e5 (quick) / 1e6 (thorough) values of three shapes (walk, climb-then-hover, sweep-and-hover), dyadic and non-dyadic grids, f32 in both tiers, flat values incl. 0.1, 1/3 and 0 after three-decade, high-level / small-spread and 2^50-scaled prefixes.",
+         "Held on the executions explored except for the recorded known findings (Vst / Vsct and - at f32 - WelfordOnline through the running m2's residue, PFE over a Sma, LaguerreRSI's conditioning at f32): 25 views + PFE / EFT over three smoothers x N grid (and 300 / 400 / 520 on 1e6 values), three-decade streams of 1e5 (quick) / 1e6 (thorough) values of three shapes (walk, climb-then-hover, sweep-and-hover), dyadic and non-dyadic grids, f32 in both tiers (incl. flat trials at N = 400..1024 held for up to 10N values), flat values incl. 0.1, 1/3 and 0 after three-decade, high-level / small-spread and 2^50-scaled prefixes.",
          "natural scale per output class as stated in the evidence; WelfordRolling's drift is decided by C13"),
  "C17": ("relational runtime monitor: twin instances, extra and omitted last() calls, clones (also taken during warm-up) with divergent continuations, twin on another thread; bit identity",
          "Held on the executions explored: all views and random chains, random clone points, three interleavings of original and clone.",
